@@ -194,6 +194,19 @@ def instructions(ctx) -> None:
         blk = [x for x in fv.calls() if isinstance(x.call.func, ast.Attribute) and x.call.func.attr == "append" and is_name(x.call.func.value, targets_name)
                and {(key(r), p) for r, p, br in fv.atoms_at(x.node)} == {(key(r), p) for r, p, br in fv.atoms_at(cs.node)} and fv.cfg.enclosing_loops(x.node) == fv.cfg.enclosing_loops(cs.node)]
         ctx.rep.check(len(blk) == 1, "C14.earlier-source", c + "/parallel-lists", "instructions and actual_targets grow together", "the instruction is appended without its achieved concentrations (or vice versa): later lookups by column index are misaligned", where=w)
+        if kind == "stock":
+            # instructions[i] must describe column i (the serial loop continues at len(instructions) and indexes the list by
+            # column): the stock loop has to stop at the first column it cannot prepare instead of skipping it
+            loops = [h for h in fv.cfg.enclosing_loops(cs.node) if fv.cfg.nodes[h].kind == "for"]
+            if loops:
+                h = loops[-1]
+                body = fv.cfg.loop_body[h]
+                # a path through the body that reaches the next iteration without passing the append
+                nxt = fv.cfg.reachable_from(min(body), {cs.node}) if body else set()
+                skips = h in {s_ for x in nxt if x in body for s_, lab in fv.cfg.nodes[x].succ if lab != "exc"} or any(
+                    fv.cfg.nodes[x].kind == "stmt" and isinstance(fv.cfg.nodes[x].ast, ast.Continue) for x in nxt if x in body)
+                ctx.rep.check(not skips, "C14.earlier-source", c + "/prefix", "the stock loop stops at the first column that cannot be prepared from the stock",
+                              "the stock loop can skip a column and go on with the next one: the instruction list is then no longer indexed by column (columns are planned from the wrong source / twice)", where=w)
         if kind == "serial":
             src = fv.res.resolve(src_e, cs.node)
             ep = src.args if is_sym(src, "elem") else None
@@ -316,6 +329,12 @@ def totals(ctx) -> None:
 
     if isinstance(raw, ast.BinOp) and isinstance(raw.op, ast.Sub) and is_total(raw.left) and (attr_of_name(raw.right, selfn, "v_stock") or key(fv.def_expr(raw.right, at)[0]) == key(fv.def_expr(stores["v_stock"].ast.value, stores["v_stock"].id)[0])):
         ctx.rep.holds(rule, c, "v_diluent = sum(R * vmax) - v_stock", where=w)
+        return
+    if isinstance(raw, ast.BinOp) and is_total(raw.left) and (attr_of_name(raw.right, selfn, "v_stock")) and not isinstance(raw.op, ast.Sub):
+        ctx.rep.refuted(rule, c, f"v_diluent is `{show(raw)[:60]}`: the stock volume has to be subtracted from what ends up in the plate", where=w)
+        return
+    if isinstance(raw, ast.BinOp) and isinstance(raw.op, ast.Sub) and attr_of_name(raw.right, selfn, "v_stock") and isinstance(raw.left, ast.Call) and call_fname(raw.left) == "sum" and not is_total(raw.left):
+        ctx.rep.refuted(rule, c, f"v_diluent is `{show(raw)[:60]}`: the total is not sum(R * vmax), the volume of all wells of the plan", where=w)
         return
     # a running total: every planned column contributes sum(vmax[<that column>] - <its draw>)
     if isinstance(n.ast.value, ast.Name):
